@@ -33,9 +33,13 @@ THEOREMS = [
     "Qentem.Props.C09.overflow_reported_partial",
     "Qentem.Props.C09.real_within_one_ulp_pos",
     "Qentem.Props.C09.negScale_error_bound",
+    "Qentem.Props.C09.strToNum_digits_to_end",
+    "Qentem.Props.C09.real_within_one_ulp_negexp",
+    "Qentem.Props.C09.real_within_one_ulp_frac_end",
+    "Qentem.Props.C09.real_within_one_ulp_frac_exp",
 ]
-OPEN = ["Qentem.Props.C09.real_within_one_ulp (proved for integer mantissas of <= 19 digits with exponent >= 0: real_within_one_ulp_pos; open for fractions / negative net exponents, where negScale_error_bound gives the pipeline error; searched by the exact-Rat oracle on the C++ results)",
-        "Qentem.Props.C09.overflow_reported (proved for the same class inside real_within_one_ulp_pos and at the power-function level for every 64-bit mantissa; the general numeral statement stays open only because the parse of fraction+exponent shapes is not connected)"]
+OPEN = ["Qentem.Props.C09.real_within_one_ulp (proved for: integer mantissa <= 19 digits with exponent >= 0; integer mantissa with negative exponent and d1.ddd[e+-k] numerals (<= 18 digits, fraction not the single digit 0) under 2^(X/27) <= 16*mantissa; open for 0.ddd / .ddd, '1.0'-style fractions, mantissas beyond the 19-unit window, tiny mantissas beyond e-134; searched by the exact-Rat oracle on the C++ results)",
+        "Qentem.Props.C09.overflow_reported (proved inside the class theorems: NotANumber only when the value really exceeds every finite double, never a finite pattern above max; open outside the class)"]
 
 D0, D9, DOT, LE, UE, PLUS, MINUS = 48, 57, 46, 101, 69, 43, 45
 
